@@ -206,7 +206,9 @@ func c10R2(c *Ctx) {
 			}
 			n++
 			tmp := false
-			for _, ct := range Calls(f, func(nm string) bool { return nm == "os.CreateTemp" || nm == "os.Create" || nm == "os.OpenFile" || nm == "os.WriteFile" }) {
+			for _, ct := range Calls(f, func(nm string) bool {
+				return nm == "os.CreateTemp" || nm == "os.Create" || nm == "os.OpenFile" || nm == "os.WriteFile"
+			}) {
 				if c09Uses(args[0], ct.Value(), 0) || (len(ct.Common().Args) > 0 && c09SameKey(ct.Common().Args[0], args[0])) {
 					tmp = true
 				}
